@@ -16,11 +16,10 @@ theorem send_loop_exits_by_return :
 /-- **Recv appends every packet to the connection's reassembly buffer before it
     looks at the FinalChunk flag** (the model's `recvCalls`: the partial
     message is connection state; no path returns a packet's payload without
-    the chunks already buffered) -/
+    the chunks already buffered).  `order_Recv` is the translator's view of the
+    function after helper expansion: the one receive from `recvDataChan`, the one
+    `append`, the one condition on `.FinalChunk`, in source order -/
 theorem recv_appends_before_final_test :
-    skel_Recv.contains "call:append" = true ∧
-    skel_Recv.idxOf "call:append" < skel_Recv.idxOf "cond:msg.FinalChunk" ∧
-    (skel_Recv.filter (· == "if")).length = 1 ∧
-    skel_Recv.idxOf "case:recv g.recvDataChan" < skel_Recv.idxOf "call:append" := by decide
+    order_Recv = ["recv", "append", "final-test"] := by decide
 
 end Lnc.Inst.C14
